@@ -10,6 +10,7 @@ ignored by the model; flags are `0`/`1`.
 
   sec_enc x y comp                 public_pair_to_sec                       ok <hex> | err <Class>
   sec_dec strict hex               sec_to_public_pair(sec, generator, strict) ok x y | err <Class>
+  sec_dec_c curve strict hex       the same with the generator of `curve` (secp256k1 | secp256r1 | bls12_381)
   key_from_sec net hex             network.keys.public(sec)                 ok x y comp sec h160 addr | err <Class>
   key_ctor_d cfg d                 Key(secret_exponent=d)                   ok x y | err <Class>
   key_ctor_pair x y | inf          Key(public_pair=…)                       ok | err <Class>
@@ -66,6 +67,12 @@ def handle : Handler := fun op args =>
     | .error e => some (showErr e)
   | "sec_dec", [strict, sec] => do
     match Sec.secToPublicPair k1 (← parseHex? sec) (← parseFlag? strict) with
+    | .ok (x, y) => some s!"ok {x} {y}"
+    | .error e => some (showErr e)
+  | "sec_dec_c", [curve, strict, sec] => do
+    -- the same function with another generator (secp256r1: 32-byte field; bls12_381: 48-byte field)
+    let c ← (Gen.Curves.named.find? (·.1 = curve)).map (·.2)
+    match Sec.secToPublicPair c (← parseHex? sec) (← parseFlag? strict) with
     | .ok (x, y) => some s!"ok {x} {y}"
     | .error e => some (showErr e)
   | "key_from_sec", [net, sec] => do
